@@ -461,6 +461,17 @@ fn c09(tier: &str) -> Vec<String> {
 fn c10(tier: &str) -> Vec<String> {
     let th = tier == "thorough";
     let mut v = vec![];
+    // capacity 0 is a rendezvous queue: Ok only on a direct hand-over to an idle worker
+    for (sc, prog) in [("", "E0E0E0"), ("b", "E0E0E0O"), ("b", "E0QE0E0O"), ("ob", "E0QE0QE0E0O"), ("", "E0QE0QE0")] {
+        for order in ["hc", "ch"] {
+            v.push(format!("queue:cap=0:script={}:order={}:prog={}", sc, order, prog));
+        }
+        v.push(format!("queue:cap=0:script={}:h=0:prog={}", sc, prog));
+    }
+    for pr in ["E,E", "EE,E"] {
+        v.push(format!("queue:cap=0:script=b:prog=E0QSJ:prod={}:P=2", pr));
+        v.push(format!("queue:cap=0:prog=SJ:prod={}:P=2", pr));
+    }
     for cap in ["1", "2", "3", "u"] {
         let c: usize = cap.parse().unwrap_or(2);
         let n = c + 2;
